@@ -229,8 +229,9 @@ theorem DInv.keep_setData {P : Params α} {d : Disc α} {live : Live} (h : DInv 
 
 /-! ### each operation -/
 
-theorem add_inv {P : Params α} {d : Disc α} {live : Live} (h : DInv P d live) {m : Nat} {x : Coord} {dist : α}
-    (hx : x.length = P.dim) (hm : m ∉ live.map (·.1)) : DInv P (add P d m x dist).1 (live ++ [(m, x)]) := by
+theorem add_inv_gen {P : Params α} {d : Disc α} {live : Live} (h : DInv P d live) {m : Nat} {x : Coord} {dist : α}
+    (hx : x.length = P.dim) (hm : m ∉ live.map (·.1)) {w off : α} :
+    DInv P (add P d m x dist w off).1 (live ++ [(m, x)]) := by
   have hlnd : ((live ++ [(m, x)]).map (·.1)).Nodup := by
     rw [List.map_append, List.nodup_append]
     refine ⟨h.lnd, by simp, ?_⟩
@@ -243,7 +244,7 @@ theorem add_inv {P : Params α} {d : Disc α} {live : Live} (h : DInv P d live) 
       Classical.byContradiction (fun hn => by rw [lookup_none_iff.2 hn] at hl; cases hl)
     have hhas : has d.grid.cells x = true := (h.has_iff x).2 hxk
     simp only [hhas, if_true]
-    have hi' : Inv (gcfg P (setData d.cdata x { cd with motions := cd.motions ++ [m], coverage := cd.coverage + Num.ofNat 1 }))
+    have hi' : Inv (gcfg P (setData d.cdata x { cd with motions := cd.motions ++ [m], coverage := cd.coverage + w }))
         d.grid := h.ginv.shape (shape P _ _)
     refine ⟨step_inv (op := .upd x 0) trivial hi', ?_, ?_, ?_, ?_, hlnd⟩
     · show (Grid.step _ d.grid (.upd x 0)).cells.map (·.coord) = keys (setData _ _ _)
@@ -305,6 +306,10 @@ theorem add_inv {P : Params α} {d : Disc α} {live : Live} (h : DInv P d live) 
       · simp at hp; subst hp; simp
     · show d.size + 1 = (live ++ [(m, x)]).length
       rw [h.size]; simp
+
+theorem add_inv {P : Params α} {d : Disc α} {live : Live} (h : DInv P d live) {m : Nat} {x : Coord} {dist : α}
+    (hx : x.length = P.dim) (hm : m ∉ live.map (·.1)) : DInv P (add P d m x dist).1 (live ++ [(m, x)]) :=
+  add_inv_gen h hx hm
 
 theorem remove_inv {P : Params α} {d : Disc α} {live : Live} (h : DInv P d live) (m : Nat) (x : Coord) :
     DInv P (remove P d m x).1 (live.filter (fun p => !(p == (m, x)))) ∧
@@ -457,6 +462,7 @@ theorem empty_inv (P : Params α) (bf : α) : DInv P ({ bf := bf } : Disc α) []
 /-- the abstract effect of an operation on the list of stored motions -/
 def specStep (live : Live) : DOp α → Live
   | .add m x _ => live ++ [(m, x)]
+  | .addW m x _ _ _ => live ++ [(m, x)]
   | .remove m x => live.filter (fun p => !(p == (m, x)))
   | .clear => []
   | _ => live
@@ -464,12 +470,14 @@ def specStep (live : Live) : DOp α → Live
 /-- what the caller must respect: a motion is added once (fresh `Motion*`), under a coordinate of `dim` entries -/
 def opValid (P : Params α) (live : Live) : DOp α → Prop
   | .add m x _ => x.length = P.dim ∧ m ∉ live.map (·.1)
+  | .addW m x _ _ _ => x.length = P.dim ∧ m ∉ live.map (·.1)
   | _ => True
 
 theorem dstep_inv {P : Params α} {d : Disc α} {live : Live} (h : DInv P d live) (op : DOp α)
     (hv : opValid P live op) : DInv P (dstep P d op) (specStep live op) := by
   cases op with
   | add m x dist => exact add_inv h hv.1 hv.2
+  | addW m x dist w off => exact add_inv_gen h hv.1 hv.2
   | select u pick => exact (select_inv h u pick).1
   | updScore x s => exact updScore_inv h x s
   | remove m x => exact (remove_inv h m x).1
